@@ -8,7 +8,7 @@ CFG = dict(nops=5, maxdim=9, init="random", p_clip=0.1, p_layer=0.1, p_xf=0.05, 
 RULE = ("integer rectangles (inside, partly and wholly off the surface, zero and negative sizes) with all 28 blend modes, every "
         "source kind, alpha in [0,1], random destination contents. On the implementation itself, pairs of scenes that must give "
         "identical pixels: fill_rect vs fill of PathBuilder::rect of the same rectangle (identity, no clip); fill_rect with vs "
-        "without a surface-covering clip rectangle; clear with an empty clip stack vs under a covering clip; draw_image_at at an "
+        "without a surface-covering clip rectangle (also under transforms); clear with an empty clip stack vs under a covering clip (under any transform); draw_image_at at an "
         "integer position vs fill_rect with the translated image source. Plus the usual comparison of every pixel with the "
         "model; non-trivial = pair whose rectangle intersects the surface")
 
@@ -49,11 +49,15 @@ def pairs(ctx):
             B.append("scene %d %s ; fill %s %s %s" % (len(B), hdr, path, src, opts))
             kinds.append("fill_rect (integer fast path) vs fill of PathBuilder::rect")
         elif k == 1:
+            if rng.random() < 0.3:      # the same under any current transform
+                hdr = hdr + " ; xf " + scene.xf_tokens(scene.rand_xf(rng))
             A.append("scene %d %s ; fillrect %d %d %d %d %s %s" % (len(A), hdr, FB(float(x)), FB(float(y)), FB(float(w)), FB(float(h)), src, opts))
             B.append("scene %d %s ; %s ; fillrect %d %d %d %d %s %s" % (len(B), hdr, cover, FB(float(x)), FB(float(y)), FB(float(w)), FB(float(h)), src, opts))
             kinds.append("fill_rect with vs without a surface-covering clip rectangle")
         elif k == 2:
             c = gen.hexpx(gen.premul_pixel(rng))
+            if rng.random() < 0.5:      # clear ignores the current transform, on both routes
+                hdr = hdr + " ; xf " + scene.xf_tokens(scene.rand_xf(rng))
             A.append("scene %d %s ; clear %s" % (len(A), hdr, c))
             B.append("scene %d %s ; %s ; clear %s" % (len(B), hdr, cover, c))
             kinds.append("clear with an empty clip stack vs under a surface-covering clip")
